@@ -1,5 +1,5 @@
 #!/usr/bin/env python3
-"""confirm_seed.py <Cxx> <mK> [--tier quick|thorough] [--no-check]
+"""confirm_seed.py <Cxx> <mK> [--round 2] [--tier quick|thorough] [--no-check]
 
 Confirms a seeded change produced by an independent sub-agent (in /tmp/seed/out_<Cxx>/<mK>/: patch.diff, demo.py,
 meta.json) in a scratch worktree of /repo (never in /repo itself):
@@ -19,8 +19,10 @@ import xml.etree.ElementTree as ET
 VERIF = os.path.dirname(os.path.dirname(os.path.abspath(__file__)))
 pid, mut = sys.argv[1], sys.argv[2]
 tier = sys.argv[sys.argv.index('--tier') + 1] if '--tier' in sys.argv else 'quick'
-src = '/tmp/seed/out_%s/%s' % (pid, mut)
-wt = '/tmp/seed/confirm_%s_%s' % (pid, mut)
+rnd = sys.argv[sys.argv.index('--round') + 1] if '--round' in sys.argv else ''   # '' = round one, '2' = round two
+src = '/tmp/seed/out%s_%s/%s' % (rnd, pid, mut)
+name = ('r%s' % rnd if rnd else '') + mut
+wt = '/tmp/seed/confirm_%s_%s%s' % (pid, 'r' + (sys.argv[sys.argv.index('--round') + 1] if '--round' in sys.argv else ''), mut)
 subprocess.run(['git', '-C', '/repo', 'worktree', 'remove', '--force', wt], stdout=subprocess.DEVNULL, stderr=subprocess.DEVNULL)
 subprocess.run(['git', '-C', '/repo', 'worktree', 'add', '--detach', wt, 'HEAD'], check=True, stdout=subprocess.DEVNULL,
                stderr=subprocess.DEVNULL)
@@ -40,7 +42,7 @@ try:
         print(pid, mut, 'PATCH DOES NOT APPLY', a.stdout[-300:])
         sys.exit(1)
     r1 = sh(['/venv/bin/python', '_demo.py'], timeout=1800)
-    xml = '/tmp/seed/out_%s/%s.confirm.xml' % (pid, mut)
+    xml = src + '.confirm.xml'
     sh(['/venv/bin/python', '-m', 'pytest', '-q', '-p', 'no:cacheprovider', '--timeout=900',
         '--continue-on-collection-errors', '--junitxml=' + xml], timeout=3000)
     stable = set(json.load(open('/root/.vp/BASELINE.json'))['stable_pass'])
@@ -82,7 +84,7 @@ try:
         print('   check exit=%d %s %s' % (c.returncode, 'CAUGHT via ' + gate if viol else 'MISSED', summ[-1] if summ else ''))
         # leave Gen/ regenerated from the clean tree again
         sh(['/venv/bin/python', 'harness/py2lean.py'], cwd=VERIF, e=dict(os.environ))
-    dst = os.path.join(VERIF, 'seeded', pid, mut)
+    dst = os.path.join(VERIF, 'seeded', pid, name)
     os.makedirs(dst, exist_ok=True)
     for f in ('patch.diff', 'demo.py'):
         shutil.copy(os.path.join(src, f), dst)
